@@ -5,6 +5,7 @@
 import DDProofs.SatProofs
 import DDProofs.GcSpec
 import DD.Auto
+import DDProofs.OrderAbs
 open Std
 
 namespace DD
@@ -61,6 +62,33 @@ theorem fLen_spec (a : AMgr) (hw : WF a.m.tbl) (hs : Nat) (s : Int)
   obtain ⟨l, e, p, hl⟩ := descendants_spec' hw [s] (by simpa using hm)
   refine ⟨l, ?_, p, fun v => by rw [hl]; simp, (hl 1).mpr ⟨s, by simp, reach_term hw s hm⟩⟩
   simp only [fLen, bind, AM.bind', nodeOwn, hh, AM.liftE, e, pure, AM.pure']
+
+/-- `Function.level` and `Function.var` on a live handle: pure reads; the level is `levelOf`
+(number of variables for the terminal), the variable is `None` for the terminal and otherwise
+the name `var_at_level(level)` — the `t.nameOf n.lvl` of the Shannon expansion `C18_expand_spec` -/
+theorem fLevel_fVar_spec (a : AMgr) (hw : WF a.m.tbl) (hv : VarsOK a.m.tbl) (hs : Nat) (s : Int)
+    (hh : a.handles[hs]? = some s) (hm : a.m.tbl.Mem s) :
+    fLevel hs a = (.ok (a.m.tbl.levelOf s), a) ∧
+    (s.natAbs = 1 → fVar hs a = (.ok none, a)) ∧
+    (∀ n, s.natAbs ≠ 1 → a.m.tbl.succ[s.natAbs]? = some n →
+      fVar hs a = (.ok (some (a.m.tbl.nameOf n.lvl)), a) ∧
+      varAtLevel (n.lvl : Int) a.m = (.ok (a.m.tbl.nameOf n.lvl), a.m)) := by
+  refine ⟨?_, ?_, ?_⟩
+  · rcases hm.cases with h1 | ⟨h1, n, hn⟩
+    · have h1' : s.natAbs = 1 := h1
+      simp only [fLevel, bind, AM.bind', nodeOwn, hh, AM.liftE, succOf, h1', if_true, pure, AM.pure',
+        levelOf_term _ _ h1']
+    · have hn' : a.m.tbl.succ[s.natAbs]? = some n := by simpa [Tbl.node?] using hn
+      simp only [fLevel, bind, AM.bind', nodeOwn, hh, AM.liftE, succOf, h1, if_false, hn', pure,
+        AM.pure', levelOf_node _ _ _ h1 hn]
+  · intro h1
+    simp only [fVar, bind, AM.bind', nodeOwn, hh, AM.liftE, succOf, h1, if_true, pure, AM.pure']
+  · intro n h1 hn
+    have hlt : n.lvl < a.m.tbl.nvars := hw.lvl_lt _ _ (by simpa [Tbl.node?] using hn)
+    have hva := varAtLevel_ok a.m n.lvl _ (hv.l2v_eq hlt)
+    refine ⟨?_, hva⟩
+    simp only [fVar, bind, AM.bind', nodeOwn, hh, AM.liftE, succOf, h1, if_false, hn, AM.liftM, hva,
+      pure, AM.pure']
 
 /-! ### the graph behind `_to_dot` -/
 
